@@ -14,6 +14,7 @@ from . import oracle_c11
 from . import gen_cli
 from . import engine_cli
 from . import seams
+from . import model_calendar as MC
 from . import prng
 from . import world as W
 
@@ -173,7 +174,132 @@ PROFILE_C01 = {
 }
 
 
+def c01_cli_gen(seed, run, tier):
+    """Isolation at the command line: the same commands on a world and on its twin (one file's forecast
+    values changed); the other files' columns of the csv/text tables must be identical."""
+    parts = (seed, "C01cli", run)
+    prof = dict(gen_cli.PROFILE_CLI, n_inputs=(2, 4), p_no_id=0.0, p_x0=0.0)
+    world = W.generate(prng.stream(*parts, "world"), prof)
+    rng = prng.stream(*parts, "ops")
+    files = [p["name"] for p in world["inputs"]]
+    # forecasts in the range of the observations and thresholds (the tag scheme keeps them ~1000 apart,
+    # which would make every contingency table trivial)
+    for k, party in enumerate(W.parties(world)):
+        g = party["fields"].get("fcst")
+        if g is not None:
+            for plane in g:
+                for row in plane:
+                    for j, v in enumerate(row):
+                        if v is not None and v == v and abs(v) != float("inf"):
+                            row[j] = float((int(v) * 7 + k * 13) % 300)
+    cmds = []
+    for _ in range(rng.randint(2, 5)):
+        cmd = gen_cli.gen_command(rng, world, allow_f=False)
+        groups = [g for g in cmd["groups"] if not g[0].startswith("--list") and g[0] not in ("-hist", "-sort", "-leg", "-type", "-f")]
+        if not any(g[0] == "-m" for g in groups):
+            groups.append(["-m", "mae"])
+        if rng.random() < 0.35:
+            # several thresholds averaged over (threshold metrics with an explicit -r)
+            groups = [g for g in groups if g[0] not in ("-m", "-r", "-q", "-b")]
+            groups += [["-m", rng.choice(["far", "ets", "threat", "hit", "pc", "biasfreq"])],
+                       ["-r", ",".join(str(v) for v in sorted(rng.sample(range(1, 260), rng.randint(2, 4))))]]
+            if not any(g[0] == "-x" for g in groups):
+                groups.append(["-x", rng.choice(["leadtime", "time", "location", "no"])])
+        groups.append(["-type", rng.choice(["csv", "csv", "text"])])
+        cmds.append(files + [t for g in groups for t in g])
+    return {"prop": "C01", "engine": "B", "kind": "cli_twin", "seed": seed, "run": run, "tier": tier, "world": world,
+            "twin": rng.randrange(len(files)), "cases": [{"kind": "cmd", "argv": a} for a in cmds], "pinned": True, "pin_seed": 777}
+
+
+def _table(out, n_files):
+    """Parse a csv/text table printed by verif: list of rows of cells, warnings removed."""
+    rows = []
+    for line in out.splitlines():
+        if not line.strip() or line.startswith("\x1b"):
+            continue
+        cells = [c.strip() for c in (line.split("|") if "|" in line else line.split(","))]
+        if "|" in line and cells and cells[-1] == "":
+            cells = cells[:-1]
+        rows.append(cells)
+    return rows
+
+
+def c01_cli_execute(spec, workdir):
+    import os
+    victim = spec["twin"]
+    cfg = {}
+    w2 = W.twin(spec["world"], victim)
+    # the victim's forecasts stay in the range of the thresholds but take other values
+    import copy as _copy
+    w2["inputs"][victim]["fields"]["fcst"] = _copy.deepcopy(spec["world"]["inputs"][victim]["fields"].get("fcst"))
+    g = w2["inputs"][victim]["fields"]["fcst"]
+    if g is None:
+        del w2["inputs"][victim]["fields"]["fcst"]
+    else:
+        for plane in g:
+            for row in plane:
+                for j, v in enumerate(row):
+                    if v is not None and v == v and abs(v) != float("inf"):
+                        row[j] = float((int(v) * 3 + 50) % 300)
+    n_files = len(spec["world"]["inputs"])
+    outs = []
+    stats = {}
+    for tag, world in (("a", spec["world"]), ("b", w2)):
+        sim = engine_cli.CliSim(dict(spec, world=world, cases=[]), os.path.join(workdir, tag))
+        sim.cases = []
+        collected = []
+
+        def runner(step, case, _sim=sim, _c=collected):
+            _c.append(_sim.run_cmd(case["argv"]))
+        sim.case_cmd = runner
+        sim.cases = spec["cases"]
+        res = sim.run()
+        outs.append(collected)
+        for k, v in res["stats"].items():
+            stats[k] = stats.get(k, 0) + v
+        digest = res["digest"]
+    shutil.rmtree(workdir, ignore_errors=True)
+    violation = None
+    compared = 0
+    for step, (case, oa, ob) in enumerate(zip(spec["cases"], outs[0], outs[1])):
+        if not (oa["ok"] and ob["ok"]):
+            continue
+        ta, tb = _table(oa["stdout"], n_files), _table(ob["stdout"], n_files)
+        if len(ta) != len(tb) or any(len(x) != len(y) for x, y in zip(ta, tb)):
+            violation = {"step": step, "kind": "cli_isolation", "detail": {"sub": "shape", "argv": case["argv"], "victim": victim,
+                                                                           "a": oa["stdout"][:400], "b": ob["stdout"][:400]}}
+            break
+        files_in_cmd = [t for t in case["argv"] if t in [p["name"] for p in spec["world"]["inputs"]]]
+        nf = len(files_in_cmd)
+        bad = None
+        for ra, rb in zip(ta, tb):
+            if len(ra) < nf:
+                continue
+            for j in range(len(ra)):
+                col_file = j - (len(ra) - nf)
+                if col_file >= 0 and files_in_cmd[col_file] == spec["world"]["inputs"][victim]["name"]:
+                    continue
+                if ra[j] != rb[j]:
+                    bad = (ra, rb, j)
+                    break
+            if bad:
+                break
+        compared += 1
+        if bad:
+            violation = {"step": step, "kind": "cli_isolation", "detail": {"sub": "value", "argv": case["argv"], "victim": victim,
+                                                                           "row_a": bad[0], "row_b": bad[1], "column": bad[2]}}
+            break
+    stats["probe:cli_twin_tables_compared"] = compared
+    if violation is not None:
+        violation["signature"] = "cli_isolation sub=%s metric=%s" % (violation["detail"]["sub"], engine_cli.metric_of(violation["detail"]["argv"]))
+    h = hashlib.sha256(json.dumps([[o["status"], o["stdout"]] for col in outs for o in col]).encode()).hexdigest()[:20]
+    return {"violation": violation, "digest": h, "stats": stats, "fired": {}, "states": [], "log": [], "steps": 2 * len(spec["cases"]),
+            "mode": "cli-twin", "ilv": _cli_ilv(spec), "nontrivial": compared >= 1}
+
+
 def c01_gen(seed, run, tier):
+    if run % 10 == 9:
+        return c01_cli_gen(seed, run, tier)
     spec = gen_data.gen_spec("C01", seed, run, tier, PROFILE_C01)
     trng = prng.stream(seed, "C01", run, "twin")
     n = len(spec["world"]["inputs"])
@@ -187,6 +313,8 @@ def c01_gen(seed, run, tier):
 
 
 def c01_execute(spec, workdir):
+    if spec.get("kind") == "cli_twin":
+        return c01_cli_execute(spec, workdir)
     oracle = oracle_c01.C01Oracle()
     sim = engine_data.DataSim(spec, workdir + "/a", oracles=[oracle], want_ref=False)
     res = sim.run()
@@ -241,6 +369,10 @@ PROFILE_C11 = {
 C11_AXES = ["Time", "Year", "Month", "Week", "Day", "Timeofday", "Dayofyear", "Dayofmonth", "Monthofyear",
             "Leadtime", "Leadtimeday", "Location", "Lat", "Lon", "Elev", "No", "Threshold", "Obs", "Fcst"]
 CONV_DAYS = 73414
+_D0 = MC.days_from_civil(1900, 1, 1)
+# blocks of days where calendar rules bite: 1900 (no leap day), 1970 epoch, 2000 (leap), 2038 (32 bit), 2100 (no leap day)
+CONV_CRITICAL = [0, MC.days_from_civil(1969, 12, 1) - _D0, MC.days_from_civil(2000, 2, 1) - _D0,
+                 MC.days_from_civil(2038, 1, 1) - _D0, MC.days_from_civil(2100, 2, 1) - _D0, MC.days_from_civil(2100, 10, 1) - _D0]
 
 
 def _env_op(rng):
@@ -281,7 +413,8 @@ def c11_gen(seed, run, tier):
             spec["ops"] = [{"op": "conv", "start": 0, "n": CONV_DAYS}]
         else:
             n = CONV_DAYS // 20
-            spec["ops"] = [{"op": "conv", "start": mrng.randrange(0, CONV_DAYS - n), "n": n}]
+            spec["ops"] = [{"op": "conv", "start": mrng.randrange(0, CONV_DAYS - n), "n": n}] + \
+                          [{"op": "conv", "start": c, "n": 120} for c in CONV_CRITICAL]
         spec["kind"] = "conv"
         return spec
     n_inputs = len(world["inputs"])
@@ -313,7 +446,8 @@ def c11_gen(seed, run, tier):
                         "leadtimes": orng.sample([0.0, 6.0, 23.0, 23.75, 23.99, 24.0, 24.5, 47.5, 48.0, 71.99, 72.0, 240.0, 1e-3], 6)})
         else:
             n = 200 if tier == "quick" else 1500
-            ops.append({"op": "conv", "start": orng.randrange(0, CONV_DAYS - n), "n": n})
+            start = orng.choice(CONV_CRITICAL) if orng.random() < 0.35 else orng.randrange(0, CONV_DAYS - n)
+            ops.append({"op": "conv", "start": min(start, CONV_DAYS - n), "n": n})
     # a sibling dataset in the same process: same number of times, same first and last time, other interior
     trng = prng.stream(*parts, "tenant")
     if len(world["universe"]["times"]) >= 3 and trng.random() < 0.35:
@@ -521,7 +655,7 @@ PROPS = {
                     "distinct = distinct run digests among non-trivial runs"},
     "C01": {"gen": c01_gen, "execute": c01_execute, "engine": "A",
             "runs": {"quick": 4000, "thorough": 120000},
-            "expected_probes": ["probe:sibling_pairs", "probe:decoded_responses", "probe:twin_compared"],
+            "expected_probes": ["probe:sibling_pairs", "probe:decoded_responses", "probe:twin_compared", "probe:cli_twin_tables_compared"],
             "rule": "one evaluation = one seeded simulated session on a world with >= 2 parties (2-4 inputs, optional "
                     "climatology, differing coverage and missingness, inputs without obs): interleaved client scripts "
                     "issuing sibling requests (same fields/axis/slice for every input) with other clients, failing "
